@@ -121,7 +121,11 @@ def lower_body(body, cls=None, methods=(), members=(), objs=None, ptr_objs=None,
     b = _sub(log, 'R3 std::', r'\bstd::(memcpy|memset|memcmp|memmove|min|max|size_t)\b', r'\1', b)
     b = _sub(log, 'R3 Memory::', r'\bMemory::(?=InputMemoryStream|OutputMemoryStream)', '', b)
     # R9 endianness
-    b = _sub(log, 'R9 Endian', r'\bEndian::(host_to_be|be_to_host|host_to_le|le_to_host)\s*(?:<\s*\w+\s*>)?\s*\(', r'TINS_\1(', b)
+    def endian(m, args):
+        if m.group(2):   # explicit template argument = the width the library converts at
+            return 'TINS_%s((%s)(%s))' % (m.group(1), m.group(2), args)
+        return 'TINS_%s(%s)' % (m.group(1), args)
+    b = _rewrite_calls(b, r'\bEndian::(host_to_be|be_to_host|host_to_le|le_to_host)\s*(?:<\s*(\w+)\s*>)?\s*(?=\()', endian, log, 'R9 Endian')
 
     # R2 known-class local declarations:  InputMemoryStream stream(a, b);  ->  IMS stream; IMS_ctor(&stream, a, b);
     def decl(m):
